@@ -55,8 +55,9 @@ def build(p: Dict[str, Any]) -> Dict[str, Any]:
         "struct_defs": {"INNER": {"a": p["n1"], "b": arr(p["n2"], p["sh"]), "c": "char[3]"}},
     }
     root: Dict[str, Any] = {
-        "imports": ["lib/imp.yaml"],
-        "constants": {"K2": "K * 2", "BIG": "K * 1000 + 7"},
+        # lib/imp.yaml is reached twice, through differently spelled paths (a diamond): it must be read once
+        "imports": ["lib/imp.yaml", "lib/extra.yaml", "lib/zeta/indep.yaml", "alpha.yaml"],
+        "constants": {"K2": "K * 2", "BIG": "K * 1000 + 7", "HALF": "K / 2", "INV": "1 / K", "SPAN": "(K2 + 1) / 2"},
         "string_constants": {"GREETING": "hello world"},
         "aliases": {"A1": p["n4"], "A2": "A1"},
         "host_ids": {"MYHOST": 10},
@@ -80,13 +81,18 @@ def build(p: Dict[str, Any]) -> Dict[str, Any]:
     elif v == "signed_char":
         root["message_defs"]["MSG_V"] = {"id": 1020, "fields": {"q": "signed char", "r": "signed char[3]"}}
     elif v == "message_in_message":
-        root["message_defs"]["MSG_V"] = {"id": 1020, "fields": {"inner": "MSG_A", "tail": "int32"}}
+        # the container has the SMALLER id: definition order, not id order, is what the outputs must follow
+        root["message_defs"]["MSG_V"] = {"id": 900, "fields": {"inner": "MSG_A", "tail": "int32"}}
     elif v == "alias_array":
         root["message_defs"]["MSG_V"] = {"id": 1020, "fields": {"q": "A2[4]", "r": "A1"}}
     elif v == "struct_array_of_alias_struct":
         root["struct_defs"]["WRAP"] = {"items": "MID[2]", "n": "int32"}
         root["message_defs"]["MSG_V"] = {"id": 1020, "fields": {"w": "WRAP[2]"}}
-    return {"root.yaml": root, "lib/imp.yaml": imp}
+    extra = {"imports": ["../lib/imp.yaml"], "constants": {"EXTRA_C": "K + 1"}}
+    # two files that depend on nothing: only the written order of the import list fixes where their items go
+    indep = {"constants": {"INDEP_C": 11}, "struct_defs": {"INDEP_S": {"v": "int32"}}, "message_defs": {"INDEP_M": {"id": 1100, "fields": {"w": "INDEP_S"}}}}
+    alpha = {"constants": {"ALPHA_C": 12}, "message_defs": {"ALPHA_M": {"id": 1101, "fields": {"w": "int16[2]"}}}}
+    return {"root.yaml": root, "lib/imp.yaml": imp, "lib/extra.yaml": extra, "lib/zeta/indep.yaml": indep, "alpha.yaml": alpha}
 
 
 def run_program(args) -> Dict[str, Any]:
@@ -262,6 +268,23 @@ def compare_language(res: Dict[str, Any], exp: dict) -> List[Tuple[str, str]]:
         if (res.get("js") or {}).get("constants", {}).get(n) != v:
             bad.append(("ConstMismatch:javascript", n))
         if ((res.get("matlab") or {}).get("defines") or {}).get(n) != v:
+            bad.append(("ConstMismatch:matlab", n))
+    for n, (num, den) in exp.get("ratios", {}).items():
+        want = num / den
+        def near(x):
+            try:
+                return abs(float(x) - want) < 1e-12
+            except (TypeError, ValueError):
+                return False
+        if not near(psig["constants"].get(n)):
+            bad.append(("ConstMismatch:parser", n))
+        if not near((res.get("python") or {}).get("constants", {}).get(n)):
+            bad.append(("ConstMismatch:python", n))
+        if not near((res.get("c") or {}).get("constants", {}).get(n)):
+            bad.append(("ConstMismatch:c", n))
+        if not near((res.get("js") or {}).get("constants", {}).get(n)):
+            bad.append(("ConstMismatch:javascript", n))
+        if not near(((res.get("matlab") or {}).get("defines") or {}).get(n)):
             bad.append(("ConstMismatch:matlab", n))
     for n, v in exp["mids"].items():
         if (res.get("python") or {}).get("mids", {}).get(n) != v or (res.get("c") or {}).get("mids", {}).get(n) != str(v) \
